@@ -307,7 +307,11 @@ static lp_id_t get_neighbor_mesh(lp_id_t from, struct topology *topology, enum t
 	if(topology->regions == 1)
 		return INVALID_DIRECTION;
 
+#ifdef ROOT_SIM_CORE_VERIF
+	do VERIF_LOOP(mesh_retry) {
+#else
 	do {
+#endif
 		ret = ((double)topology->regions * Random());
 	} while(ret == from);
 
